@@ -36,8 +36,18 @@ def near(rng, own, depth=None):
     return x
 
 
+QN = {"ping": b"ping".hex(), "find_node": b"find_node".hex(), "get_peers": b"get_peers".hex(),
+      "announce_peer": b"announce_peer".hex()}
+PORTS_ODD = [0, 65536, 65537, 65536 + 6881, 131072, -1, -6881, -65535, -65536, 2 ** 31, 2 ** 63 - 1, -2 ** 63, 4294967296 + 80]
+
+
+def U(ip, t="6161", y="71", q="~", id="~", target="~", ih="~", token="~", port="~", rnd=0):
+    """datagram op: fields are hex, '-' (empty string), '~' (absent) or '!' (wrong bencode type)"""
+    return "U,%d,%d,%s,%s,%s,%s,%s,%s,%s,%s" % (ip, rnd, t, y, q, id, target, ih, token, port)
+
+
 class Gen:
-    def __init__(self, rng, own=None, nips=6):
+    def __init__(self, rng, own=None, nips=6, loop=False):
         self.rng = rng
         self.own = own if own is not None else rng.choice(
             [rng.getrandbits(160), (1 << 159) + 1, MAXID, 1, MAXID - 1, rng.getrandbits(160), 0x80 << 152])
@@ -45,7 +55,11 @@ class Gen:
         self.prev = rng.getrandbits(31)
         self.old = []
         self.t0 = T0 + rng.randrange(0, 100000)
-        self.ips = [(10 << 24) + rng.getrandbits(16) for _ in range(nips)] + [0x7f000001]
+        self.loop = loop
+        if loop:   # datagram level: scripted nodes live on loopback addresses
+            self.ips = [0x7f000002 + j for j in range(nips)] + [0x7f000100 + rng.randrange(1, 250)]
+        else:
+            self.ips = [(10 << 24) + rng.getrandbits(16) for _ in range(nips)] + [0x7f000001]
         self.known = []         # (id, ip, port) we used in R
         self.issued = []        # (tokenhex, ip)
         self.ihs = [rng.getrandbits(160) for _ in range(2)] + [near(rng, self.own, 6)]
@@ -72,6 +86,11 @@ class Gen:
             return self.rng.choice([0, self.own, self.own ^ 1, MAXID, 1])
         return self.rng.getrandbits(160)
 
+    def nport(self):
+        # datagram-level cases really send the packets the server queues: keep node ports below the
+        # ephemeral range so that they can never reach a socket of a harness process running in parallel
+        return self.rng.randrange(1, 1024) if self.loop else self.rng.randrange(1, 65536)
+
     def contact(self):
         rng = self.rng
         if self.known and rng.random() < 0.45:
@@ -79,11 +98,67 @@ class Gen:
             if rng.random() < 0.1:
                 ip = rng.choice(self.ips)       # address mismatch
         else:
-            i, ip, port = self.new_id(), rng.choice(self.ips), rng.randrange(1, 65536)
+            i, ip, port = self.new_id(), rng.choice(self.ips), self.nport()
         return i, ip, port
+
+    def rid(self):
+        """20-byte id of a scripted querier (sometimes a node we know)"""
+        rng = self.rng
+        if self.known and rng.random() < 0.4:
+            return hid(rng.choice(self.known)[0])
+        return hid(self.new_id())
+
+    def query(self, malformed=False):
+        """one datagram: well-formed ping / find_node / get_peers / announce_peer, or a mutation"""
+        rng = self.rng
+        ip = rng.choice(self.ips)
+        kind = rng.choice(["ping", "find_node", "find_node", "get_peers", "get_peers", "announce_peer", "announce_peer"])
+        f = dict(t=rng.choice(["61", "6161", "00", "-", "ff" * 4, "31" * 20]), y="71", q=QN[kind], id=self.rid(),
+                 target="~", ih="~", token="~", port="~", rnd=rng.getrandbits(31))
+        if kind == "find_node":
+            f["target"] = hid(rng.choice([self.new_id(), self.own, 0, MAXID]))
+            if rng.random() < 0.1:
+                f["target"] += "abcd"          # longer than 20 bytes: first 20 count
+        if kind in ("get_peers", "announce_peer"):
+            f["ih"] = hid(rng.choice(self.ihs))
+        if kind == "announce_peer":
+            tok, _ = self.tok_choice()
+            r = rng.random()
+            f["token"] = token(self.cur, ip) if r < 0.6 else token(self.prev, ip) if r < 0.75 else tok
+            f["port"] = str(rng.choice([6881, 1, 65535, 0x1234, 256, rng.randrange(1, 65536)]))
+            if rng.random() < 0.25:
+                f["port"] = str(rng.choice(PORTS_ODD))
+        if malformed:
+            for _ in range(rng.choice([1, 1, 2])):
+                k = rng.choice(["t", "y", "q", "id", "target", "ih", "token", "port", "q", "id"])
+                if k == "t":
+                    f["t"] = rng.choice(["~", "!", "61" * 21, "61" * 66, "61" * 67, "61" * 200])
+                elif k == "y":
+                    f["y"] = rng.choice(["~", "!", "-", "7171", "7a", "51"])
+                elif k == "q":
+                    f["q"] = rng.choice(["~", "!", "-", b"pong".hex(), b"PING".hex(), b"find_nodes".hex(), b"get_peer".hex(), "00"])
+                elif k == "id":
+                    f["id"] = rng.choice(["~", "!", "-", hid(self.own), hid(self.own) + "00", self.rid()[:38], self.rid() + "ff", "00" * 20])
+                elif k in ("target", "ih"):
+                    v = rng.choice(["~", "!", "-", hid(self.new_id())[:38], hid(self.new_id())[:2]])
+                    f[k] = v
+                elif k == "token":
+                    f["token"] = rng.choice(["~", "!", "-", token(self.cur, ip)[:14], token(self.cur, ip) + "00", token(self.cur, self.ips[0] ^ 1)])
+                else:
+                    f["port"] = rng.choice(["~", "!"] + [str(x) for x in PORTS_ODD])
+        self.emit(U(ip, **f))
 
     def op(self):
         rng = self.rng
+        if self.loop:
+            r0 = rng.random()
+            if r0 < 0.40:
+                return self.query(False)
+            if r0 < 0.55:
+                return self.query(True)
+            if r0 < 0.57:
+                return self.emit("X,%d,%s" % (rng.choice(self.ips), rng.choice(
+                    [b"hello".hex(), b"d1:t1:a".hex(), b"i1e".hex(), b"le".hex(), b"d1:t2:aa1:y1:q".hex(), "00", b"d".hex(), b"d1:ti5e".hex()])))
         r = rng.random()
         if r < 0.36:
             i, ip, port = self.contact()
@@ -145,8 +220,8 @@ class Gen:
         return self.head() + " " + " ".join(self.ops)
 
 
-def random_case(rng, nops, dump_every):
-    g = Gen(rng)
+def random_case(rng, nops, dump_every, loop=False):
+    g = Gen(rng, loop=loop)
     while len(g.ops) < nops:
         g.op()
         if dump_every and rng.random() < 1.0 / dump_every:
@@ -219,6 +294,61 @@ def token_case(rng):
     return g.line(), g.stats
 
 
+def dgram_flow_case(rng):
+    """get_peers -> token -> announce_peer -> get_peers from another address, across rotations; a D
+    right before find_node so that the oracle can compare the nodes with the table"""
+    g = Gen(rng, loop=True)
+    a, b = g.ips[0], g.ips[1]
+    ih = hid(g.ihs[0])
+    for _ in range(rng.choice([0, 3, 12, 30])):
+        i = g.new_id()
+        ip, port = rng.choice(g.ips), g.nport()
+        g.emit("R,%s,%d,%d" % (hid(i), ip, port))
+        g.known.append((i, ip, port))
+    port = rng.choice([6881, 51413, 0x0102, 65535, 1])
+    for rot in range(3):
+        g.emit(U(a, q=QN["get_peers"], id=g.rid(), ih=ih))
+        g.emit(U(a, q=QN["announce_peer"], id=g.rid(), ih=ih, token=token(g.cur if rot == 0 else g.old_tok, a), port=str(port)))
+        g.emit(U(b, q=QN["get_peers"], id=g.rid(), ih=ih))
+        g.emit("D")
+        g.emit(U(b, q=QN["find_node"], id=g.rid(), target=hid(g.new_id())))
+        g.emit(U(b, q=QN["ping"], id=g.rid()))
+        if rot == 0:
+            g.old_tok = g.cur
+        g.emit("T,%d" % rng.choice([900, 899, 1000]))
+        g.old.append(g.prev)
+        g.prev = g.cur
+        g.cur = rng.getrandbits(31)
+        g.emit("H,%d" % g.cur)
+    for _ in range(rng.randrange(0, 10)):
+        g.op()
+    return g.line(), g.stats
+
+
+def dgram_ports_case(rng):
+    """announce_peer with every odd port value, each followed by get_peers"""
+    g = Gen(rng, loop=True)
+    a, b = g.ips[0], g.ips[1]
+    for j, pt in enumerate(PORTS_ODD + ["!", "~", 1, 65535]):
+        ih = hid(0xbb00 + j)
+        g.emit(U(a, q=QN["announce_peer"], id=g.rid(), ih=ih, token=token(g.cur, a), port=str(pt)))
+        g.emit(U(b, q=QN["get_peers"], id=g.rid(), ih=ih))
+    g.emit("D")
+    return g.line(), g.stats
+
+
+def dgram_many_peers_case(rng, n):
+    g = Gen(rng, loop=True)
+    ih = hid(g.ihs[0])
+    for j in range(n):
+        ip = 0x7f000200 + j + 1
+        g.emit(U(ip, q=QN["announce_peer"], id=g.rid(), ih=ih, token=token(g.cur, ip), port=str(2000 + j)))
+        if j in (31, 32, 33, 127, 128, 129):
+            g.emit(U(g.ips[0], q=QN["get_peers"], id=g.rid(), ih=ih, rnd=rng.getrandbits(31)))
+    g.emit(U(g.ips[0], q=QN["get_peers"], id=g.rid(), ih=ih, rnd=rng.getrandbits(31)))
+    return g.line(), g.stats
+
+
 def many_peers_case(rng, n):
     g = Gen(rng)
     ih = g.ihs[0]
@@ -246,6 +376,11 @@ HAND = [
     # announce then get (port byte order)
     "N 8000000000000000000000000000000000000001 111 222 34560000 G,16909060 "
     "A,aa00000000000000000000000000000000000001,16909060,6881,%s P,aa00000000000000000000000000000000000001,16909061,0" % token(111, 16909060),
+    # regression for /repo d3749d4: announce_peer ports outside 1..65535 were truncated to 16 bits (65537 -> 1)
+    "N 8000000000000000000000000000000000000001 111 222 34560000 "
+    + U(2130706434, q=QN["announce_peer"], id="1100000000000000000000000000000000000001", ih="aa" * 20, token=token(111, 2130706434), port="65537") + " "
+    + U(2130706435, q=QN["get_peers"], id="1100000000000000000000000000000000000001", ih="aa" * 20) + " "
+    + "A,%s,2130706434,70000,%s P,%s,2130706435,0" % ("ab" * 20, token(111, 2130706434), "ab" * 20),
     # own id queried / zero id
     "N 8000000000000000000000000000000000000001 1 2 34560000 R,8000000000000000000000000000000000000001,1,1 "
     "R,0000000000000000000000000000000000000000,1,1 Q,8000000000000000000000000000000000000001,1,1 W,0000000000000000000000000000000000000000 F,8000000000000000000000000000000000000001 D",
@@ -307,6 +442,15 @@ def gen(seed, tier):
         add("token", token_case(rng))
     for n in ([40, 130] if q else [33, 40, 64, 65, 100, 128, 129, 130, 200]):
         add("many-peers", many_peers_case(rng, n))
+    # datagram level
+    for _ in range(60 if q else 500):
+        add("dgram-random", random_case(rng, rng.choice([10, 30, 60]), rng.choice([0, 4, 8]), loop=True))
+    for _ in range(25 if q else 200):
+        add("dgram-flow", dgram_flow_case(rng))
+    for _ in range(2 if q else 10):
+        add("dgram-ports", dgram_ports_case(rng))
+    for n in ([40] if q else [33, 64, 130]):
+        add("dgram-many-peers", dgram_many_peers_case(rng, n))
     if not q:
         for l in exhaustive_cases():
             add("exhaustive-len4", (l, {}))
